@@ -24,4 +24,4 @@ for s in ids:
     rows.append(line)
     if p.stdout.startswith('patch failed') or not res:
         print('   ', p.stdout[:300])
-open(os.path.join(D, 'RESULTS.md'), 'w').write('| refactoring | alarms | exit 2 | exit 0 by bounded stand-in | exit 0 by proof |\n|---|---|---|---|---|\n' + '\n'.join(rows) + '\n')
+open(os.path.join(D, 'RESULTS.md' if not sys.argv[1:] else 'RESULTS-partial.md'), 'w').write('| refactoring | alarms | exit 2 | exit 0 by bounded stand-in | exit 0 by proof |\n|---|---|---|---|---|\n' + '\n'.join(rows) + '\n')
